@@ -32,7 +32,10 @@ struct Case {
     }
 };
 
-enum class Ip { none, nn, lin };
+// lin_clamp / lin_cast / nn_backup: the interpolator sits on a layer that returns by value (clamp, covariant_cast,
+// backup over the storage) instead of directly on reference-returning storage
+enum class Ip { none, nn, lin, lin_clamp, lin_cast, nn_backup };
+constexpr bool is_lin(Ip i) { return i == Ip::lin || i == Ip::lin_clamp || i == Ip::lin_cast; }
 template <Ip I, class S, size_t N>
 struct with_interp {
     using type = S;
@@ -46,6 +49,19 @@ struct with_interp<Ip::lin, S, N> {
     using type = cb::linear<S, cv::vector_d<float, N>>;
 };
 
+template <class S, size_t N>
+struct with_interp<Ip::lin_clamp, S, N> {
+    using type = cb::linear<cb::clamp<S>, cv::vector_d<float, N>>;
+};
+template <class S, size_t N>
+struct with_interp<Ip::lin_cast, S, N> {
+    using type = cb::linear<cb::covariant_cast<float, S>, cv::vector_d<float, N>>;
+};
+template <class S, size_t N>
+struct with_interp<Ip::nn_backup, S, N> {
+    using type = cb::nearest_neighbour<cb::backup<S>, cv::vector_d<float, N>>;
+};
+
 template <Lay L, Ip I, bool AFF, size_t N>
 struct W {
     using IV = cv::vector_d<std::size_t, N>;
@@ -57,7 +73,7 @@ struct W {
     static constexpr bool is_ref = std::is_lvalue_reference_v<typename B::covariant_output_t::vector_t>;
     static std::string name()
     {
-        return std::string("concurrent/") + (AFF ? "affine<" : "") + (I == Ip::none ? "" : I == Ip::nn ? "nearest<" : "linear<") + lay_name(L) + "/N=" + std::to_string(N);
+        return std::string("concurrent/") + (AFF ? "affine<" : "") + (I == Ip::none ? "" : I == Ip::nn ? "nearest<" : I == Ip::lin ? "linear<" : I == Ip::lin_clamp ? "linear<clamp<" : I == Ip::lin_cast ? "linear<covariant_cast<float," : "nearest<backup<") + lay_name(L) + "/N=" + std::to_string(N);
     }
 
     static F build(const Case & c)
@@ -94,7 +110,24 @@ struct W {
                 v.at(x)[1] = -float(r);
             }
         }
-        if constexpr (AFF && I != Ip::none) {
+        if constexpr (I == Ip::lin_clamp || I == Ip::nn_backup) {
+            // box = the whole lattice: the wrapper never alters an in-range lookup
+            using WL = typename SI::backend_t;
+            typename WL::configuration_t wc;
+            for (size_t k = 0; k < N; ++k) {
+                wc.min[k] = 0;
+                wc.max[k] = c.ext[k] - 1;
+            }
+            if constexpr (I == Ip::nn_backup) {
+                wc.default_value[0] = -7.f;
+                wc.default_value[1] = -9.f;
+            }
+            static_assert(!AFF);
+            return F(pack(std::monostate{}, wc, typename S::owning_data_t(st.backend())));
+        } else if constexpr (I == Ip::lin_cast) {
+            static_assert(!AFF);
+            return F(pack(std::monostate{}, std::monostate{}, typename S::owning_data_t(st.backend())));
+        } else if constexpr (AFF && I != Ip::none) {
             auto m = typename B::configuration_t(covfie::algebra::matrix<N, N + 1, float>::identity());
             return F(pack(m, std::monostate{}, typename S::owning_data_t(st.backend())));
         } else if constexpr (I != Ip::none) {
@@ -422,6 +455,14 @@ void register_all()
     W<Lay::strided, Ip::lin, false, 5>::reg();
     W<Lay::morton_port, Ip::lin, false, 4>::reg();
     W<Lay::morton_port, Ip::none, false, 4>::reg();
+    // interpolators over layers that return by value
+    W<Lay::strided, Ip::lin_clamp, false, 1>::reg();
+    W<Lay::strided, Ip::lin_clamp, false, 2>::reg();
+    W<Lay::morton_port, Ip::lin_cast, false, 2>::reg();
+    W<Lay::strided, Ip::lin_cast, false, 3>::reg();
+    W<Lay::hilbert, Ip::lin_clamp, false, 2>::reg();
+    W<Lay::strided, Ip::nn_backup, false, 2>::reg();
+    W<Lay::strided, Ip::lin_cast, false, 4>::reg();
 }
 }   // namespace
 VF_MAIN(register_all)
